@@ -548,6 +548,24 @@ def boundary_table(grace):
             for dl in sorted(dls):
                 if dl - 1 > 5 * TPS:
                     cases.append(around(pre, dl, elapsed=5 * TPS))
+    # two refreshes in a row: lengthen, let the ORIGINAL deadline pass (or not), then shorten (or lengthen again);
+    # lookups around the deadline of the last write and around every earlier one
+    for lt0 in (10, 20):
+        for first in (1000, lt0, lt0 + 30):
+            for t2 in (lt0 + g - 3, lt0 + g + 5, lt0 + g + 40):          # before / after the original deadline
+                for last in (4, 60, None):
+                    for how in ("U", "P", "R"):
+                        if t2 <= 5 or 5 + first + g <= t2:
+                            continue                                   # already expired: another story
+                        w1 = ["U", 1, REMOTES[0], [["lt", str(first)]], NOBODY]
+                        q2 = [] if last is None else [["lt", str(last)]]
+                        w2 = {"U": ["U", 1, REMOTES[0], q2, NOBODY], "P": ["P", 1, REMOTES[0], q2, LF(L2)],
+                              "R": reg("n1", lt=last)}[how]
+                        pre = [reg("n1", lt=lt0), ["T", 5 * TPS], w1, ["T", (t2 - 5) * TPS], w2] + looks
+                        eff = last if last is not None else (90000 if how == "R" else first)
+                        for dl in sorted({(t2 + eff + g) * TPS, (5 + first + g) * TPS}):
+                            if dl - 1 > t2 * TPS and dl < 200000 * TPS:
+                                cases.append(around(pre, dl, elapsed=t2 * TPS))
     # every 4.xx kind on a new key, an existing key, POST and PUT; the directory before and after
     bad_queries = [[["lt", "abc"]], [["lt", ""]], [["lt", "1"], ["lt", "2"]], [["base", BASES[0]], ["base", BASES[1]]],
                    [["rt", "x"]], [["href", "/x"]], [["page", "0"]], [["count", "1"]], [["anchor", "/"]],
